@@ -16,14 +16,15 @@ PROPERTIES_V = "theories/Properties/C13.v"
 CASE_IMPORTS = "From GV Require Import Prelude.Base Model.Geometry Model.Extent."
 ALLOWED_AXIOMS: list = []
 REFUTED = [
-    "C13_subgrid_minimal_refuted (model of Grid2D.copy_from_extent's index arithmetic: when the selected columns/rows have "
-    "a gap the sub-grid is narrower than the bounding rectangle; not reachable with axis-aligned grids, where the theorem "
-    "C13_subgrid_minimal applies)",
+    "C13_subgrid_minimal_refuted (pinned tree, Grid2D.copy_from_extent: when the selected columns/rows have a gap - reachable on "
+    "rotated grids - the sub-grid is narrower than the bounding rectangle and misplaced; replayed on the implementation "
+    "(finding grid-subgrid-gap); the same statement is proved for the repaired code as C13_subgrid_minimal_repaired)",
 ]
 PARTIAL = [
-    "C13_subgrid_minimal (Grid2D index part only, under the hypothesis that the selected cells' columns and rows are "
-    "contiguous, which holds for axis-aligned grids; rotation/dip arithmetic, block models, octrees, drillholes and groups "
-    "are not modelled)",
+    "C13_subgrid_minimal (pinned tree, Grid2D index part, under the hypothesis that the selected cells' columns and rows are "
+    "contiguous, which holds for axis-aligned grids)",
+    "the Grid2D part covers the index arithmetic only (rotation/dip float arithmetic is exercised by the correspondence on "
+    "0-degree and 3-4-5 rotations, not modelled); block models, octrees, drillholes and groups are not covered",
 ]
 TRUSTED = [
     "Coq 8.16.1 kernel + vm_compute (correspondence evaluation); no axioms (Print Assumptions: closed)",
@@ -35,26 +36,76 @@ TRUSTED = [
 ]
 ASSUMPTIONS = [
     "coordinates, box bounds, grid origins and cell sizes are small integers so that float comparisons are exact",
-    "objects are Points, Curve, Surface (data: float/int/bool) and Grid2D with rotation = dip = 0 (float cell data)",
+    "objects are Points, Curve, Surface (data: float/int/bool) and Grid2D with dip = 0 and rotation 0 or atan(3/4) (cell size 5, "
+    "so cell centres sit on half-integers and box bounds on integers never touch them), float cell data",
     "GridObject (block model, octree), Drillhole and Group selection is not covered",
 ]
 RULE = (
     "Points/Curve/Surface (80%): 1-12 vertices on the lattice [-3,3]^2 x [-1,1], cells with unreferenced vertices (30%) "
     "and unordered cells (30%), 0-3 data children; boxes with bounds on lattice values (so points on faces, edges and "
     "corners are common), 2-D and 3-D, degenerate (lo = hi), covering, disjoint from the bounding box, touching it, "
-    "and inverted (lo > hi, refused); inverse flag 35%. Grid2D (20%): 1-6 x 1-6 cells, integer origin and cell sizes, "
-    "boxes on half-cell coordinates. non-trivial = the box keeps some but not all elements (vertices or grid cells)"
+    "and inverted (lo > hi, refused); inverse flag 35%. Grid2D (25%): 1-6 x 1-6 cells, integer origin; axis-aligned with "
+    "integer cell sizes and boxes on half-cell coordinates, or rotated by atan(3/4) with cell size 5 and thin or wide boxes "
+    "on integer bounds (thin boxes select non-adjacent columns). non-trivial = the box keeps some but not all elements (vertices or grid cells)"
 )
 LEVEL_TEXT = (
     "Proved for all vertex lists, cells, boxes (2-D or 3-D) and both values of inverse: the mask of a point cloud is the "
     "closed-box test xor inverse on x,y(,z) and is None exactly when the box misses the bounding box; curves and surfaces "
     "keep exactly the vertices used by a cell all of whose vertices qualify and return None exactly when the box misses the "
     "bounding box or no cell qualifies; the extent copy is the C07 selection for that mask (same coordinates, data follow, "
-    "every kept vertex is used by a kept cell). For Grid2D only the index arithmetic is modelled: the selected rectangle "
-    "is the bounding rectangle when rows/columns are contiguous (axis-aligned grids), refuted in general. Tie: in-Coq "
-    "differential correspondence on generated inputs."
+    "every kept vertex is used by a kept cell). For Grid2D the index arithmetic is modelled: the selected rectangle is the "
+    "bounding rectangle of the selected cells for the repaired code (all selections) and, for the pinned tree, when the "
+    "selected rows/columns are contiguous; refuted otherwise with a witness replayed on a rotated grid (recorded finding). "
+    "Tie: in-Coq differential correspondence on generated inputs; the repair flag is read off the source."
 )
 TECHNIQUE = "Coq proof over a hand model + in-Coq differential correspondence"
+
+_FILL = None
+
+
+def detect_fill(repo) -> bool:
+    """Does Grid2D.copy_from_extent fill the span between the first and last selected column/row? (fail-closed)"""
+    import ast
+    from pathlib import Path
+
+    tree = ast.parse((Path(repo) / "geoh5py/objects/grid2d.py").read_text())
+    fn = None
+    for node in ast.walk(tree):
+        if isinstance(node, ast.FunctionDef) and node.name == "copy_from_extent":
+            fn = node
+    if fn is None:
+        raise RuntimeError("Grid2D.copy_from_extent not found")
+    names = [t.id for st in fn.body if isinstance(st, ast.Assign) for t in st.targets if isinstance(t, ast.Name)]
+    for need in ("u_ind", "v_ind", "indices"):
+        if need not in names:
+            raise RuntimeError(f"Grid2D.copy_from_extent: assignment to {need} not found")
+    iu, ii = [i for i, st in enumerate(fn.body) if isinstance(st, ast.Assign) and any(isinstance(t, ast.Name) and t.id == "v_ind" for t in st.targets)][0], \
+             [i for i, st in enumerate(fn.body) if isinstance(st, ast.Assign) and any(isinstance(t, ast.Name) and t.id == "indices" for t in st.targets)][0]
+    between = fn.body[iu + 1:ii]
+    if not between:
+        return False
+    if len(between) == 1 and isinstance(between[0], ast.For):
+        slices = [n for n in ast.walk(between[0]) if isinstance(n, ast.Assign) and any(
+            isinstance(t, ast.Subscript) and isinstance(t.slice, ast.Slice) for t in n.targets)]
+        if len(slices) == 1 and isinstance(slices[0].value, ast.Constant) and slices[0].value.value is True:
+            return True
+    raise RuntimeError("Grid2D.copy_from_extent: unrecognised statements between v_ind and indices")
+
+
+def regenerate(repo):
+    global _FILL
+    _FILL = detect_fill(repo)
+    return {"tables": {"repair_flags": {"grid_fill_span": _FILL}}}
+
+
+def _fill_term():
+    global _FILL
+    if _FILL is None:
+        from vlib import common as C
+
+        _FILL = detect_fill(C.REPO)
+    return cbool(_FILL)
+
 
 OKIND = G.OKIND
 ASSOC = G.ASSOC
@@ -129,8 +180,42 @@ def _gen_mesh_case(rng):
 
 def _gen_grid_case(rng):
     nu, nv = rng.range(1, 6), rng.range(1, 6)
-    du, dv = rng.choice([1, 2, 4]), rng.choice([1, 2, 4])
     ox, oy, oz = rng.range(-4, 4), rng.range(-4, 4), rng.range(-2, 2)
+    vals = [rng.range(-40, 40) for _ in range(nu * nv)]
+    if rng.chance(45):
+        nu, nv = rng.range(2, 7), rng.range(2, 7)
+        vals = [rng.range(-40, 40) for _ in range(nu * nv)]
+        # rotation atan(3/4), cell size 5: centre (i, j) sits at o + (4i - 3j + 1/2, 3i + 4j + 7/2): odd in half units
+        case = {"kind": "grid", "rot": "345", "nu": nu, "nv": nv, "du": 5, "dv": 5, "origin": [ox, oy, oz], "vals": vals}
+        cx = [2 * ox + 8 * i - 6 * j + 1 for j in range(nv) for i in range(nu)]
+        cy = [2 * oy + 6 * i + 8 * j + 7 for j in range(nv) for i in range(nu)]
+        def bound(cs, thin):
+            if thin:
+                c = rng.choice(cs)
+                w = rng.choice([1, 3, 3])
+                return [c - w, c + w]
+            a, b = sorted((rng.range(min(cs) - 3, max(cs) + 3), rng.range(min(cs) - 3, max(cs) + 3)))
+            return [a - a % 2, b + b % 2]  # even half-units = integers: never on a centre
+        style = rng.weighted([("gap", 35), ("thin_y", 15), ("thin_x", 10), ("wide", 30), ("all", 10)])
+        if style == "all":
+            box = [[min(cx) - 1, max(cx) + 1], [min(cy) - 1, max(cy) + 1]]
+        elif style == "gap":
+            # search (deterministically, from the same stream) for a thin box whose selected columns or rows are not adjacent
+            box = None
+            for _ in range(30):
+                tx = rng.chance(35)
+                cand = [bound(cx, tx), bound(cy, not tx)]
+                ins = [cand[0][0] <= x <= cand[0][1] and cand[1][0] <= y <= cand[1][1] for x, y in zip(cx, cy)]
+                us = sorted({k % nu for k, b in enumerate(ins) if b})
+                vs = sorted({k // nu for k, b in enumerate(ins) if b})
+                box = cand
+                if us and (len(us) != us[-1] - us[0] + 1 or len(vs) != vs[-1] - vs[0] + 1):
+                    break
+        else:
+            box = [bound(cx, style == "thin_x"), bound(cy, style == "thin_y")]
+        case["box_half"] = box
+        return case
+    du, dv = rng.choice([1, 2, 4]), rng.choice([1, 2, 4])
     # bounds on half-cell coordinates (expressed in halves to stay integral): centroid k sits at o + (k + 1/2) d
     def bound(o, d, n):
         a = rng.range(-1, 2 * n + 1)
@@ -142,13 +227,44 @@ def _gen_grid_case(rng):
         box2.append([2 * oz - rng.range(0, 2), 2 * oz + rng.range(0, 2)])
     if rng.chance(8):  # disjoint
         box2[0] = [2 * ox + 2 * nu * du + 2, 2 * ox + 2 * nu * du + 4]
-    vals = [rng.range(-40, 40) for _ in range(nu * nv)]
-    return {"kind": "grid", "nu": nu, "nv": nv, "du": du, "dv": dv, "origin": [ox, oy, oz], "box_half": box2, "vals": vals}
+    return {"kind": "grid", "rot": "0", "nu": nu, "nv": nv, "du": du, "dv": dv, "origin": [ox, oy, oz], "box_half": box2, "vals": vals}
+
+
+def _centres2(case):
+    """cell centres in half units (exact integers), row-major with u fastest"""
+    ox, oy, oz = case["origin"]
+    if case.get("rot", "0") == "345":
+        return [[2 * ox + 8 * i - 6 * j + 1, 2 * oy + 6 * i + 8 * j + 7, 2 * oz] for j in range(case["nv"]) for i in range(case["nu"])]
+    return [[2 * ox + (2 * i + 1) * case["du"], 2 * oy + (2 * j + 1) * case["dv"], 2 * oz] for j in range(case["nv"]) for i in range(case["nu"])]
+
+
+def _origin2(case, u0, v0):
+    ox, oy, oz = case["origin"]
+    if case.get("rot", "0") == "345":
+        return [2 * ox + 8 * u0 - 6 * v0, 2 * oy + 6 * u0 + 8 * v0, 2 * oz]
+    return [2 * ox + 2 * u0 * case["du"], 2 * oy + 2 * v0 * case["dv"], 2 * oz]
+
+
+def _index_of_origin(case, o2):
+    """(u0, v0) of a sub-grid origin given in half units, or None"""
+    dx, dy = o2[0] - 2 * case["origin"][0], o2[1] - 2 * case["origin"][1]
+    if o2[2] != 2 * case["origin"][2]:
+        return None
+    if case.get("rot", "0") == "345":
+        a, b = 8 * dx + 6 * dy, -6 * dx + 8 * dy
+        if a % 100 or b % 100:
+            return None
+        u0, v0 = a // 100, b // 100
+    else:
+        if dx % (2 * case["du"]) or dy % (2 * case["dv"]):
+            return None
+        u0, v0 = dx // (2 * case["du"]), dy // (2 * case["dv"])
+    return (u0, v0) if u0 >= 0 and v0 >= 0 else None
 
 
 def generate(rng, tier):
     n = 320 if tier == "quick" else 6000
-    return [(_gen_grid_case(rng) if rng.chance(20) else _gen_mesh_case(rng)) for _ in range(n)]
+    return [(_gen_grid_case(rng) if rng.chance(25) else _gen_mesh_case(rng)) for _ in range(n)]
 
 
 # ----------------------------------------------------------------------------- implementation driver
@@ -214,16 +330,25 @@ def drive_one(case, work):
             os.remove(path)
 
 
+def _r2(x):
+    """twice a coordinate as an exact integer when it is one up to float noise"""
+    y = round(2 * float(x))
+    return int(y) if abs(2 * float(x) - y) < 1e-6 else {"float": repr(float(x))}
+
+
 def _drive_grid(case, ws):
+    import math
+
     import numpy as np
     from geoh5py.objects import Grid2D
 
+    rot = math.degrees(math.atan2(3, 4)) if case.get("rot", "0") == "345" else 0.0
     g = Grid2D.create(ws, origin=[float(x) for x in case["origin"]], u_cell_size=float(case["du"]), v_cell_size=float(case["dv"]),
-                      u_count=case["nu"], v_count=case["nv"], rotation=0.0, dip=0.0, name="grid")
+                      u_count=case["nu"], v_count=case["nv"], rotation=rot, dip=0.0, name="grid")
     g.add_data({"d1": {"values": np.array(case["vals"], dtype=float), "association": "CELL"}})
     ext = np.array(case["box_half"], dtype=float).T / 2.0
     cent = np.asarray(g.centroids)
-    out = {"centroids2": [[float(2 * x) for x in p] for p in cent.tolist()]}
+    out = {"centroids2": [[_r2(x) for x in p] for p in cent.tolist()]}
     try:
         cp = g.copy_from_extent(ext)
     except Exception as e:  # noqa: BLE001
@@ -236,8 +361,9 @@ def _drive_grid(case, ws):
     for ch in cp.children:
         if getattr(ch, "name", None) == "d1":
             vals = G._canon_vals(ch.values)
-    out["copy"] = {"nu": int(cp.u_count), "nv": int(cp.v_count), "origin2": [float(2 * cp.origin[a]) for a in ("x", "y", "z")],
-                   "du": float(cp.u_cell_size), "dv": float(cp.v_cell_size), "vals": vals}
+    out["copy"] = {"nu": int(cp.u_count), "nv": int(cp.v_count), "origin2": [_r2(cp.origin[a]) for a in ("x", "y", "z")],
+                   "du": float(cp.u_cell_size), "dv": float(cp.v_cell_size), "rotation": float(cp.rotation), "vals": vals,
+                   "src_rotation": float(g.rotation)}
     return out
 
 
@@ -262,18 +388,12 @@ def _rmask_term(o):
     return "Ok (Some %s)" % clist(cbool(b) for b in o["mask"])
 
 
-def _sel_rows(case, obs):
-    """selected centroids of the grid, recomputed from the *observed* centroids with exact halves (driver-side input of
-    the index model): rows of u_count booleans"""
+def _sel_rows(case, cent2):
+    """selected centroids of the grid from exact half-unit centres: rows of u_count booleans"""
     box = case["box_half"]
     rows = []
-    c2 = obs["centroids2"]
     for j in range(case["nv"]):
-        row = []
-        for i in range(case["nu"]):
-            p = c2[j * case["nu"] + i]
-            row.append(all(box[k][0] <= p[k] <= box[k][1] for k in range(len(box))))
-        rows.append(row)
+        rows.append([all(box[k][0] <= cent2[j * case["nu"] + i][k] <= box[k][1] for k in range(len(box))) for i in range(case["nu"])])
     return rows
 
 
@@ -281,32 +401,26 @@ def case_term(case, obs):
     if case["kind"] == "grid":
         if "copy" not in obs:
             return "false"
-        # centroids must be where the format says: origin + (k + 1/2) * size, row-major with u fastest
-        want = [[float(2 * case["origin"][0] + (2 * i + 1) * case["du"]), float(2 * case["origin"][1] + (2 * j + 1) * case["dv"]),
-                 float(2 * case["origin"][2])] for j in range(case["nv"]) for i in range(case["nu"])]
-        if obs["centroids2"] != want:
+        # centroids must be where the format says (exact in half units)
+        if obs["centroids2"] != _centres2(case):
             return "false"
-        rows = _sel_rows(case, obs)
+        rows = _sel_rows(case, obs["centroids2"])
         sel = clist(clist(cbool(b) for b in r) for r in rows)
         cp = obs["copy"]
         if "error" in cp:
             return "false"
+        gs = "grid_select %s %s %s" % (_fill_term(), cnat(case["nu"]), sel)
         if cp.get("none"):
-            return "match grid_select %s %s with None => true | Some _ => false end" % (cnat(case["nu"]), sel)
-        u0 = (cp["origin2"][0] - 2 * case["origin"][0]) / (2 * case["du"])
-        v0 = (cp["origin2"][1] - 2 * case["origin"][1]) / (2 * case["dv"])
-        if not (float(u0).is_integer() and float(v0).is_integer() and u0 >= 0 and v0 >= 0 and cp["origin2"][2] == 2 * case["origin"][2]
-                and cp["du"] == case["du"] and cp["dv"] == case["dv"]):
+            return "match %s with None => true | Some _ => false end" % gs
+        if any(isinstance(x, dict) for x in cp["origin2"]) or cp["du"] != case["du"] or cp["dv"] != case["dv"] or cp["rotation"] != cp["src_rotation"]:
             return "false"
-        # values of the sub-grid: those of the cells picked by the mask, blanked outside the box
-        flat = [b for r in rows for b in r]
-        if cp["vals"] is None or any(isinstance(x, dict) for x in cp["vals"]):
+        uv = _index_of_origin(case, cp["origin2"])
+        if uv is None or cp["vals"] is None or any(isinstance(x, dict) for x in cp["vals"]):
             return "false"
-        return ("match grid_select %s %s with None => false | Some g => "
+        return ("match %s with None => false | Some g => "
                 "Nat.eqb (sg_u0 g) %s && Nat.eqb (sg_v0 g) %s && Nat.eqb (sg_nu g) %s && Nat.eqb (sg_nv g) %s && "
-                "vals_eqb (select (sg_mask g) (fill_masked None %s %s)) %s end") % (
-            cnat(case["nu"]), sel, cnat(int(u0)), cnat(int(v0)), cnat(cp["nu"]), cnat(cp["nv"]),
-            clist(cbool(b) for b in flat), G._vals_term(case["vals"]), G._vals_term(cp["vals"]))
+                "vals_eqb (grid_copy_values %s g %s) %s end") % (
+            gs, cnat(uv[0]), cnat(uv[1]), cnat(cp["nu"]), cnat(cp["nv"]), sel, G._vals_term(case["vals"]), G._vals_term(cp["vals"]))
     if "mask" not in obs:
         return "false"
     # the object as created must be the object asked for (values padded by add_data are not generated here)
@@ -443,11 +557,11 @@ def oracle(case, obs):
 def _oracle_grid(case, obs):
     fails = []
     cp = obs.get("copy", {})
-    nu, nv, du, dv = case["nu"], case["nv"], case["du"], case["dv"]
-    o2 = [2 * x for x in case["origin"]]
+    nu, nv = case["nu"], case["nv"]
     box = case["box_half"]
-    # cell centres in half units, exact
-    cent = [[o2[0] + (2 * i + 1) * du, o2[1] + (2 * j + 1) * dv, o2[2]] for j in range(nv) for i in range(nu)]
+    cent = _centres2(case)  # exact, from the format's convention
+    if obs.get("centroids2") != cent:
+        return [{"key": "grid-centroids", "what": f"centroids {obs.get('centroids2')} != origin + R((i+1/2)du, (j+1/2)dv)"}]
     inside = [_inside(p, box) for p in cent]
     if "error" in cp:
         return [{"key": "grid-copy-raised", "what": f"Grid2D.copy_from_extent raised {cp['error']}"}]
@@ -457,13 +571,15 @@ def _oracle_grid(case, obs):
         return fails
     if not any(inside):
         return [{"key": "grid-copy-of-nothing", "what": "a copy was returned although no cell centre lies in the box"}]
-    us = [i for j in range(nv) for i in range(nu) if inside[j * nu + i]]
-    vs = [j for j in range(nv) for i in range(nu) if inside[j * nu + i]]
-    u0, u1, v0, v1 = min(us), max(us), min(vs), max(vs)
-    exp = {"nu": u1 - u0 + 1, "nv": v1 - v0 + 1, "origin2": [float(o2[0] + 2 * u0 * du), float(o2[1] + 2 * v0 * dv), float(o2[2])]}
+    us = sorted({i for j in range(nv) for i in range(nu) if inside[j * nu + i]})
+    vs = sorted({j for j in range(nv) for i in range(nu) if inside[j * nu + i]})
+    u0, u1, v0, v1 = us[0], us[-1], vs[0], vs[-1]
+    exp = {"nu": u1 - u0 + 1, "nv": v1 - v0 + 1, "origin2": _origin2(case, u0, v0)}
     got = {k: cp[k] for k in ("nu", "nv", "origin2")}
     if got != exp:
-        fails.append({"key": "grid-not-minimal", "what": f"sub-grid {got} != smallest covering sub-grid {exp}"})
+        gap = len(us) != u1 - u0 + 1 or len(vs) != v1 - v0 + 1
+        key = "grid-subgrid-gap" if gap and got["nu"] == len(us) and got["nv"] == len(vs) else "grid-not-minimal"
+        fails.append({"key": key, "what": f"sub-grid {got} != smallest sub-grid covering the selected cells {exp} (selected columns {us}, rows {vs})"})
         return fails
     ev = [case["vals"][j * nu + i] if inside[j * nu + i] else None for j in range(v0, v1 + 1) for i in range(u0, u1 + 1)]
     if cp["vals"] != ev:
@@ -485,6 +601,14 @@ def histogram(cases, obs):
     for c, o in zip(cases, obs):
         h["kind"][c["kind"]] = h["kind"].get(c["kind"], 0) + 1
         if c["kind"] == "grid":
+            h.setdefault("grid_rotation", {})
+            h["grid_rotation"][c.get("rot", "0")] = h["grid_rotation"].get(c.get("rot", "0"), 0) + 1
+            cent = _centres2(c)
+            ins = [_inside(p, c["box_half"]) for p in cent]
+            us = sorted({i for j in range(c["nv"]) for i in range(c["nu"]) if ins[j * c["nu"] + i]})
+            vs = sorted({j for j in range(c["nv"]) for i in range(c["nu"]) if ins[j * c["nu"] + i]})
+            if us and (len(us) != us[-1] - us[0] + 1 or len(vs) != vs[-1] - vs[0] + 1):
+                h["grid_selection_with_gap"] = h.get("grid_selection_with_gap", 0) + 1
             cp = o.get("copy", {})
             r = "grid:" + ("none" if cp.get("none") else "error" if "error" in cp else "copy")
             h["result"][r] = h["result"].get(r, 0) + 1
